@@ -386,6 +386,14 @@ def run(prog, rep, tier):
     if n16 < 20:
         raise CheckerError("R1.6: only %d lifted instances" % n16)
 
+    # ------------------------------------------------------------ R1.7 a printed message has left the source's private buffer
+    # Each source prints through its own PrinterLogMessage, which batches bytes in a private buffer.
+    # "The next message printed is the earliest pending one" needs every print call to hand its bytes
+    # to stdout before it reports Ok; otherwise messages of other sources chosen later overtake it.
+    import printflush as _pf
+    R17 = rep.rule("R1.7", "every printer body returns Ok only with its private buffer written out (path-sensitive, helpers summarised)")
+    _pf.check(prog, rep, R17, floor=24)
+
     return rep.finish(
         "Static necessary-condition check of the merge: the selection is Iterator::min_by (first minimum) directly over a BTreeMap keyed by PathId "
         "with a comparator returning DateTime::cmp(first.dt(), second.dt()); every print is dominated by 'live channels == pending messages' and "
